@@ -331,7 +331,57 @@ func c03Percents(r *vrand, n int, valid bool) (ps []int64, mode string) {
 	return
 }
 
+// A percentage of 2^32-q steps the uint32 running sum back by q, so the sum check passes although the
+// classes before it already own (almost) the whole mapping; the class then gets the budget
+// uint32(regionCap*(2^32-q)/100), which is tiny exactly when regionCap ~ 2^32/q and regionCap%100 == 1.
+// Such a class is granted room that does not exist: only the bounds checks of createFreeBufferList stand
+// between this configuration and a buffer region that reaches outside the mapping.
+func c03GenWrapTargeted(r *vrand) (pairs [][2]int64, memLen int64, ok bool) {
+	q := int64(65 + r.intn(36))
+	rc0 := (int64(1) << 32) / q
+	var cands [][2]int64
+	for rc := rc0 - rc0%100 + 1 - 30000; rc <= rc0; rc += 100 {
+		x := int64(uint32(uint64(rc) * uint64((int64(1)<<32)-q) / 100))
+		if x >= 21 && x <= 200000 && rc+80 <= 64<<20 {
+			cands = append(cands, [2]int64{rc, x})
+		}
+	}
+	if len(cands) == 0 {
+		return nil, 0, false
+	}
+	c := cands[r.intn(len(cands))]
+	rc, x := c[0], c[1]
+	memLen = rc + bufferManagerHeaderSize + 2*bufferListHeaderSize
+	p1 := q + int64(r.intn(int(100-q)+1))
+	if r.chance(70) {
+		p1 = 100 // the first class owns the whole region
+	}
+	s1 := c03LogUniform(r, 21, 400000) // stride of the first class; its leftover is what the second class can use
+	if r.chance(30) {
+		// leave exactly / one byte less than what the second class will ask for
+		s2 := int64(21 + r.intn(40))
+		need := x / s2 * s2
+		budget := rc * p1 / 100
+		if budget > need+21 {
+			s1 = budget - need + int64(r.intn(3)) - 1
+			if p1 < 100 {
+				s1 = budget
+			}
+		}
+		pairs = [][2]int64{{s1 - bufferHeaderSize, p1}, {s2 - bufferHeaderSize, (int64(1) << 32) - q}}
+		return pairs, memLen, true
+	}
+	s2 := c03LogUniform(r, 21, maxI64(21, x))
+	pairs = [][2]int64{{s1 - bufferHeaderSize, p1}, {s2 - bufferHeaderSize, (int64(1) << 32) - q}}
+	return pairs, memLen, true
+}
+
 func c03GenBM(r *vrand) (pairs [][2]int64, memLen int64, fill byte, gen string) {
+	if r.chance(4) {
+		if ps, ml, ok := c03GenWrapTargeted(r); ok {
+			return ps, ml, 0, "mem large, unsorted, wrapping percent aimed at the bounds checks"
+		}
+	}
 	n := 1 + r.intn(6)
 	if r.chance(1) {
 		n = 0
